@@ -59,7 +59,7 @@ def units_for(prop, tier):
 RETRY_SEEDS = (17, 4242)
 
 
-def run_verus(path, timeout=600, extra=()):
+def run_verus(path, timeout=3600, extra=()):
     cmd = ['verus', os.path.basename(path), '--output-json', '--time', '--error-format=json', '--num-threads', '4'] + list(extra)
     t0 = time.time()
     try:
